@@ -305,7 +305,7 @@ func runC16(c *Ctx) {
 			cf := staticCalleeFn(ci)
 			return cf != nil && recvNamedOfFn(cf) == decT
 		})
-		if len(mbr) != 1 || len(base) != 1 || len(nb) == 0 {
+		if len(mbr) != 1 || len(base) == 0 || len(nb) == 0 {
 			c.Bad("decompressed body is limited before the handler runs", p.Pos(serve.Pos()), "MaxBytesReader / base handler / body reader calls not found")
 		} else {
 			m := mbr[0]
@@ -344,7 +344,24 @@ func runC16(c *Ctx) {
 					onlyNil = false
 				}
 			}
-			before := st != nil && canReach(st, base[0], nil) && !canReach(base[0], st, nil)
+			// the handler may be called at several places (guard clause for "nothing to decompress" +
+			// the decompressed path): every path from the body reader to any of them passes the store,
+			// unless it took the "new body == nil" side of a test; and the store is never after a handler call
+			before := st != nil
+			reached := false
+			isNewBody := func(v ssa.Value) bool { return resultIndexOf(v, nb[0]) == 0 && valueIsResultOf(m.Common().Args[1], nb[0]) }
+			for _, b := range base {
+				if st == nil {
+					break
+				}
+				if canReach(st, b, nil) {
+					reached = true
+				}
+				if canReach(b, st, nil) || canReachCut(nb[0], b, map[ssa.Instruction]bool{st: true}, nilSideCut(isNewBody, true)) {
+					before = false
+				}
+			}
+			before = before && reached
 			c.Check(limField && bodyIsNew && stored && onlyNil && before, "decompressed body is limited before the handler runs", p.Pos(m.Pos()), "r.Body = MaxBytesReader(w, newBody, d.maxRequestBodySize) ≺ base.ServeHTTP, whenever newBody != nil", fmt.Sprintf("limit is the configured field=%v, wraps the decoder's body=%v, stored in r.Body=%v, only skipped when no new body=%v, before the handler=%v: a small compressed body can expand without bound", limField, bodyIsNew, stored, onlyNil, before))
 		}
 	}
@@ -381,8 +398,15 @@ func runC16(c *Ctx) {
 		for _, f2 := range p.AllSrcFuncs(hpk) {
 			if f2.Parent() == nil && len(f2.Params) == 2 && f2 != ctor {
 				has := false
+				isMBR := func(f *types.Func) bool { return f.FullName() == "net/http.MaxBytesReader" }
 				for _, g := range withAnon(f2) {
-					if len(callsNamed(g, func(f *types.Func) bool { return f.FullName() == "net/http.MaxBytesReader" })) > 0 {
+					if len(callsNamed(g, isMBR)) > 0 {
+						has = true
+					}
+				}
+				// the handler may be a named type with a ServeHTTP method instead of a closure
+				for _, hb := range p.returnedHandlerBodies(f2) {
+					if len(callsNamed(hb.Fn, isMBR)) > 0 {
 						has = true
 					}
 				}
@@ -421,7 +445,20 @@ func runC16(c *Ctx) {
 			}
 			c.Check(okInst, "the body-size interceptor is installed for every positive limit", p.Pos(fn.Pos()), "installed under MaxRequestBodySize > 0 only", "the interceptor for uncompressed bodies is missing or conditional on something else")
 			// inside: unconditional wrap before next
+			// the code that serves a request: closures of the interceptor or the methods of the handler it returns
+			var bodies []handlerBody
+			seenBody := map[*ssa.Function]bool{}
 			for _, g := range icpt.AnonFuncs {
+				bodies = append(bodies, handlerBody{Fn: g, Ctor: icpt})
+				seenBody[g] = true
+			}
+			for _, hb := range p.returnedHandlerBodies(icpt) {
+				if !seenBody[hb.Fn] {
+					bodies = append(bodies, hb)
+				}
+			}
+			for _, hb := range bodies {
+				g := hb.Fn
 				mb := callsNamed(g, func(f *types.Func) bool { return f.FullName() == "net/http.MaxBytesReader" })
 				nx := calls(g, func(ci ssa.CallInstruction) bool {
 					return ci.Common().IsInvoke() && ci.Common().Method.Name() == "ServeHTTP"
@@ -430,9 +467,11 @@ func runC16(c *Ctx) {
 					continue
 				}
 				okW := len(guardsOf(mb[0].Block())) == 0 && instrDominates(mb[0], nx[0])
-				_, limIsParam := strip(mb[0].Common().Args[2]).(*ssa.Parameter)
-				if fv, ok := mb[0].Common().Args[2].(*ssa.FreeVar); ok {
-					_, limIsParam = freeVarBinding(fv).(*ssa.Parameter)
+				limIsParam := false
+				if cv := hb.configValue(mb[0].Common().Args[2]); cv != nil {
+					if pa, ok := cv.(*ssa.Parameter); ok && pa.Parent() == icpt {
+						limIsParam = true
+					}
 				}
 				c.Check(okW && limIsParam, "uncompressed bodies are wrapped unconditionally", p.Pos(mb[0].Pos()), "r.Body = MaxBytesReader(w, r.Body, limit) on every request", fmt.Sprintf("unconditional and before the handler=%v, limit is the configured parameter=%v: e.g. chunked bodies (ContentLength −1) would be unlimited", okW, limIsParam))
 			}
@@ -449,8 +488,14 @@ func runC16(c *Ctx) {
 		base := calls(serve, func(ci ssa.CallInstruction) bool {
 			return ci.Common().IsInvoke() && ci.Common().Method.Name() == "ServeHTTP" && isFieldAccess(ci.Common().Value, decT, "base")
 		})
-		if len(nb) == 1 && len(base) == 1 {
-			c.Check(errGuardOn(base[0].Block(), nb[0], true), "handler gated by a successful body reader", p.Pos(base[0].Pos()), "err == nil side", "the handler runs although decoding set-up failed / the encoding is not enabled")
+		if len(nb) == 1 && len(base) >= 1 {
+			gated := true
+			for _, b := range base {
+				if !errGuardOn(b.Block(), nb[0], true) {
+					gated = false
+				}
+			}
+			c.Check(gated, "handler gated by a successful body reader", p.Pos(base[0].Pos()), "err == nil side", "the handler runs although decoding set-up failed / the encoding is not enabled")
 			ok400 := false
 			allInstrs(serve, func(in ssa.Instruction) {
 				ci, ok := in.(ssa.CallInstruction)
